@@ -332,7 +332,7 @@ def finish(prop: str, tier: str, rep: Report, t0: float, *, rule: str, bounds: d
 
     paths = []
     for v in confirmed:
-        d = os.path.join(VERIF_ROOT, "replays", prop)
+        d = os.path.join(os.environ.get("VERIF_REPLAY_DIR") or os.path.join(VERIF_ROOT, "replays"), prop)
         os.makedirs(d, exist_ok=True)
         body = json.dumps({"property": prop, "sig": v["sig"], "count": v["count"], "case": jsonable(v["case"])}, indent=1, sort_keys=True)
         h = hashlib.sha1(v["sig"].encode()).hexdigest()[:12]
@@ -371,8 +371,9 @@ def finish(prop: str, tier: str, rep: Report, t0: float, *, rule: str, bounds: d
         "wall_s": round(time.time() - t0, 3),
         "violations": len(confirmed),
     }
-    os.makedirs(os.path.join(VERIF_ROOT, "evidence"), exist_ok=True)
-    evp = os.path.join(VERIF_ROOT, "evidence", f"{prop}.json")
+    evdir = os.environ.get("VERIF_EVIDENCE_DIR") or os.path.join(VERIF_ROOT, "evidence")
+    os.makedirs(evdir, exist_ok=True)
+    evp = os.path.join(evdir, f"{prop}.json")
     with open(evp, "w") as f:
         json.dump(ev, f, indent=1, sort_keys=True)
     validate_evidence(evp)
